@@ -210,6 +210,13 @@ def step (s : St) (line : String) : St × String :=
       let (n, st) := InfluxVerif.Auth.httpWrite verifyTok s.node c (if u = "-" then "" else nm u) pw (nm db) (s.polledDBs.contains (nm db))
       ({ s with node := n }, s!"{st} wrote={if st = 204 then 1 else 0}")
     | none => (s, "bad-op")
+  | ["hpw", c, u, pw, db] =>
+    -- the Prometheus remote-write endpoint: the same decision as /write
+    match parseCarrier c with
+    | some c =>
+      let (n, st) := InfluxVerif.Auth.httpWrite verifyTok s.node c (if u = "-" then "" else nm u) pw (nm db) (s.polledDBs.contains (nm db))
+      ({ s with node := n }, s!"ok={if st = 204 then 1 else 0} wrote={if st = 204 then 1 else 0}")
+    | none => (s, "bad-op")
   | ["authq", u, db, ids] =>
     match allSome ((splitCsv ids).map String.toNat?) with
     | some ids =>
